@@ -1230,7 +1230,7 @@ def find_fn(items, name, impl_of=None, trait=None, trait_arg=None, target_arg=No
             hits.append(it)
         elif it.kind == "impl" and impl_of is not None and type_name(it.target) == impl_of:
             tn = type_name(it.trait) if it.trait is not None else None
-            if trait is not None and tn != trait:
+            if trait is not None and trait is not False and tn != trait:
                 continue
             if target_arg is not None:
                 # `impl AutoStream<std::io::Stdout>` next to `impl AutoStream<std::io::Stderr>`
@@ -1241,8 +1241,8 @@ def find_fn(items, name, impl_of=None, trait=None, trait_arg=None, target_arg=No
                 targs = getattr(it.trait, "args", None) or []
                 if [type_name(a) for a in targs[:1]] != [trait_arg]:
                     continue
-            if trait is None and tn is not None and trait is not False:
-                pass
+            if trait is False and tn is not None:
+                continue      # `trait=False`: the inherent impl only (a trait impl of the same type has a method of the same name)
             for sub in it.items:
                 if sub.kind == "fn" and sub.name == name:
                     hits.append(sub)
